@@ -989,9 +989,10 @@ func opReferenceChangeJournal(ctx context.Context, pc *uint64, interpreter *EVMI
 		slotWord := storageSlot.Bytes32()
 		referenceSlot := new(uint256.Int).SetBytes(keccak(interpreter, slotWord[:]))
 		for i := uint64(0); i < u64Ceiling(length, 32); i++ {
-			offset := referenceSlot.Add(referenceSlot, one).Bytes32()
-			currentRawState := interpreter.evm.StateDB.GetState(contract, offset)
+			// data slots are keccak256(slot) + i, starting with i = 0
+			currentRawState := interpreter.evm.StateDB.GetState(contract, referenceSlot.Bytes32())
 			stateBytes = append(stateBytes, currentRawState[:]...)
+			referenceSlot.Add(referenceSlot, one)
 		}
 	}
 
